@@ -1,7 +1,7 @@
 SPECIFICATION Spec
 CONSTANTS
-  Users = {"alice", "bob"}
-  Passwords = {"p1", "p2"}
+  Users = {"alice"}
+  Passwords = {"p1", "p2", "p3"}
   Servers = {1, 2}
   AsBuilt = {}
 INVARIANT AcceptedOnlyWhenAllowed
